@@ -43,6 +43,11 @@ func (io defaultFileIO) FindWithPrefixAndSuffix(prefix, suffix string) ([]string
 	}
 	var matches []string
 	for _, info := range infos {
+		// A directory is never a parity file, whatever its
+		// name.
+		if info.IsDir() {
+			continue
+		}
 		name := info.Name()
 		if len(name) >= len(namePrefix)+len(suffix) && strings.HasPrefix(name, namePrefix) && strings.HasSuffix(name, suffix) {
 			matches = append(matches, dir+name)
